@@ -195,3 +195,43 @@ Definition spec_d_b (y : delivery) (v : verdict) : bool :=
   && status_respected_b (resp y) v && shape_respected_b (resp y) v
   && (negb (browser (via y) && well_addressed y)
       || (accepted_when_fine_b (resp y) v && status_raised_when_fine_b (resp y) v)).
+
+(* ------------------------------------------------------------- the configuration
+   "... unless unsolicited responses are EXPLICITLY allowed": what the option, as written, says.  The
+   documented forms are a boolean and the strings "true" / "false"; absent (or None) says nothing, so
+   nothing is allowed; a number is read as Python reads it; a string says yes or no when, blanks and case
+   aside, it is one of the usual words; any other string says nothing definite and the property does not
+   speak about it. *)
+Definition yes_words : list string := ["true"; "yes"; "on"; "1"].
+Definition no_words : list string := ["false"; "no"; "off"; "0"; ""].
+
+Definition says_yes (s : string) : bool := mem (lower (strip s)) yes_words.
+Definition says_no (s : string) : bool := mem (lower (strip s)) no_words.
+
+Definition meaning (v : optval) : option bool :=
+  match v with
+  | OAbsent | ONone => Some false
+  | OBool b => Some b
+  | OInt n => Some (negb (n =? 0)%nat)
+  | OStr s => if says_yes s then Some true else if says_no s then Some false else None
+  end.
+
+(* finding C06-F4 (fixed by 6bdc97cd): the option is a string that says no in another spelling than exactly "false"
+   (or the empty string): "False", "FALSE", "no", "off", "0", " false" ...  The code kept such a string as it was
+   and later took its truth value: unsolicited responses were accepted.  Kept as the class of the regression
+   (Corr.cls) and of the refutation of the pinned state. *)
+Definition misread (v : optval) : bool :=
+  match v with
+  | OStr s => says_no s && negb (String.eqb s "false") && negb (is_empty s)
+  | _ => false
+  end.
+
+(* the property for a receiver set up by [s]: spec_d with allow_unsolicited := what the option says *)
+Definition spec_c (s : setup) (y : delivery) (v : verdict) : Prop :=
+  forall b, meaning (opt s) = Some b -> spec_d (configure b y) v.
+
+Definition spec_c_b (s : setup) (y : delivery) (v : verdict) : bool :=
+  match meaning (opt s) with
+  | Some b => spec_d_b (configure b y) v
+  | None => true
+  end.
